@@ -88,7 +88,7 @@ def gen(rng, tier):
             'want_ranks': rng.random() < 0.5, 'want_expvel': rng.random() < 0.3,
             'tracers': rng.choice([['LRG'], ['LRG'], ['LRG', 'ELG'], ['ELG', 'QSO']]), 'force_mt': rng.random() < 0.2,
             'n_chunks': n_chunks, 'chunk': chunk,
-            'failed_call_before': rng.random() < 0.2,
+            'failed_call_before': rng.random() < 0.2, 'z_mock': rng.choice([0.5, 0.5, 0.5, 0.65]),
             'id_base': rng.choice([0, 0, 0, 2 ** 53 + 1, 2 ** 62 + 12345]), 'id_dtype': rng.choice(['i8', 'i8', 'u8']),
             'veldev_1d': rng.random() < 0.15, 'poison': rng.choice(['A', 'B']), 'extra_rank_cols': rng.random() < 0.7}
 
@@ -119,7 +119,7 @@ def write_files(case, root):
     import asdf
     import h5py
     sim = 'SimWorld'
-    z = 0.5
+    z = case.get('z_mock', 0.5)           # 0.5: a primary epoch (halos and particles); 0.65: a secondary one (halos only)
     zdir = 'z%4.3f' % z
     hi = os.path.join(root, 'sims', sim, 'halos', zdir, 'halo_info')
     os.makedirs(hi)
@@ -311,6 +311,9 @@ def run(case):
             return out
     # particles
     tp = [t for t in truth_parts if t[0] in mine]
+    if case.get('z_mock', 0.5) != 0.5:
+        tp = []              # secondary epochs have no particle subsamples: the staged particle table is empty
+        bump(out['probes'], 'secondary-redshift')
     phid = np.asarray(pd['phid'])
     if phid.tolist() != [t[1] for t in tp]:
         violation(out, 'particle-order', site, 'particle host ids are not the concatenation of the slab files')
